@@ -1,6 +1,9 @@
 package anthropic
 
-import "fmt"
+import (
+	"encoding/json"
+	"fmt"
+)
 
 // AnthropicRequest represents an Anthropic API request
 // Maps to the Anthropic Messages API format
@@ -67,6 +70,19 @@ type ContentBlock struct {
 	ID        string                 `json:"id,omitempty"`
 	Name      string                 `json:"name,omitempty"`
 	ToolUseID string                 `json:"tool_use_id,omitempty"`
+}
+
+// MarshalJSON keeps the "input" object on tool_use blocks whose arguments are empty:
+// omitempty would drop an empty map, but the Anthropic format requires "input": {}.
+func (c ContentBlock) MarshalJSON() ([]byte, error) {
+	type plain ContentBlock
+	if c.Type != "tool_use" || len(c.Input) > 0 {
+		return json.Marshal(plain(c))
+	}
+	return json.Marshal(struct {
+		Input map[string]interface{} `json:"input"`
+		plain
+	}{Input: map[string]interface{}{}, plain: plain(c)})
 }
 
 // ImageSource represents image data in content blocks
